@@ -24,7 +24,10 @@ public:
       const std::vector<unsigned long> &starting_indexes,
       unsigned long strings_qty)
       : parts(parts), starting_indexes(starting_indexes),
-        strings_qty(strings_qty), current(1), partIdx(0) {}
+        strings_qty(strings_qty), current(1), partIdx(0) {
+    // size() of the base class reports the number of strings of the stream
+    this->scanneable = strings_qty;
+  }
 
   bool hasNext() {
     return partIdx < parts.size() &&
